@@ -205,8 +205,7 @@ class Analysis:
             return index, RelationList(), False
         if isinstance(node, pr.Assignment) and \
                 isinstance(node.lvalue, pr.ID):
-            rvalue = node.rvalue.expr if isinstance(
-                node.rvalue, pr.Cast) else node.rvalue
+            rvalue = Analysis.rm_cast(node.rvalue)
             if rvalue is not node.rvalue:  # cast of the whole right side
                 node = pr.Assignment(node.op, node.lvalue, rvalue)
             if isinstance(rvalue, pr.BinaryOp):
